@@ -43,6 +43,21 @@ CLAIMS = {
         text="Kernel-checked theorems (coq/properties/C07.v): Policy.Assemble errs exactly for an unnamed default action, no groups, or a group with a defect (unknown name, duplicate, conditional+unconditional, argument index > 5, unknown operation, empty condition list), with the stated error class; every defect-free policy is accepted (the assembler cannot fail on generated code); accepted policies decide as written; GOARCHs without tables give unsupported-arch over the regenerated alias list. Tied to the code by comparing accept/error class/panic on valid policies and policies with one injected defect.",
         technique="Rocq proof (loop invariants of toSyscallsWithConditions, well-formed-jump invariant through the generators and relax) + correspondence on the accept/error projection + direct search against the property text",
         ref="DESIGN.md 6 (C07)"),
+    "C09": dict(
+        text="PARTIAL proof. LoadFilter, Supported, SetNoNewPrivs, prctl and seccomp are REGENERATED from seccomp_linux.go as statement skeletons on every run and given a semantics over a kernel state model (per-thread filter stacks, no_new_privs, privileges; do_seccomp with the kernel's observable check order) by an interpreter in Coq; a per-run symbolic execution re-proves the loader's specification (load_spec) for the current source. Kernel-checked theorems (coq/properties/C09.v) over EVERY history of loads, probes, thread creation/exit and privilege drops: nil implies the new filter is on top of the calling thread's stack (every thread's with thread-sync) and is the compiled program; whenever the kernel leaves the state unchanged the result is an error (unknown flags, oversize, EACCES, rejected program, refused thread-sync returning a thread id); a failing Assemble has no effect; Supported changes nothing. Tied to the real code by replaying real load histories (child processes on the running kernel) step by step inside Coq and by a direct search on the observations.",
+        technique="Rocq proof over a kernel state model with the loader regenerated from source (skeleton interpreter, per-run symbolic execution) + step-wise replay of real histories inside Coq + direct search on /proc observations",
+        note="Partial: the Linux kernel is a model (check order and errnos validated on the host kernel 6.18 by experiment; the ENOMEM path-length threshold is approximate; 'already strict' cannot be observed); real memory faults and kernel bugs cannot be exhibited. Trusted: Coq kernel, translator/skeleton.go, harness/loader.go, the history generator.",
+        ref="DESIGN.md 6 (C09)"),
+    "C10": dict(
+        text="PARTIAL proof. Kernel-checked theorems (coq/properties/C10.v) over the kernel state model and the loader regenerated from source: when thread-sync is requested and the load returns nil, a fresh filter is on top of EVERY live thread's stack right after the load and stays in every thread's stack - including threads created later by any thread - for every continuation of the history; without thread-sync other threads' stacks are untouched; the flags word passed to seccomp(2) is Filter.Flag unmodified and the program passed is the compiled one. Tied to the real code by histories with 1..64 OS threads (spinning, sleeping, blocked in read, spawning) probed after an atomic 'load returned' flag, per-thread /proc status and the installation hook recording the flags word.",
+        technique="Rocq proof (invariant 'filter in every live stack' by induction over histories) over a kernel state model + replay of real multi-threaded histories + direct search",
+        note="Partial: thread-sync is ONE atomic step of the model (the kernel holds siglock; read from the kernel source, not measured) and inheritance on clone is assumed; real interleavings with up to 64 threads are sampled, not enumerated. Trusted as for C09.",
+        ref="DESIGN.md 6 (C10)"),
+    "C11": dict(
+        text="PARTIAL proof. Kernel-checked theorems (coq/properties/C11.v): the Go scheduler is an oracle that may move an unpinned goroutine to any live thread at every statement boundary of the regenerated skeleton; because the skeleton pins the goroutine (runtime.LockOSThread before prctl, released on return), for EVERY oracle the thread that enters seccomp(2) has no_new_privs set when it was requested, so an unprivileged load of a valid filter returns nil; when not requested no bit changes (except the kernel's own copy on thread-sync) and an unprivileged load fails without attaching anything; with the two pin statements stripped from the skeleton the theorem is refuted inside Coq (a migrating oracle: defect D8). Tied to the real code by unprivileged child processes with a forced migration attempt at the schedule-point hook.",
+        technique="Rocq proof quantifying over scheduler oracles on the loader regenerated from source (+ refutation of the unpinned variant) + replay of real privileged/unprivileged histories with forced migration attempts",
+        note="Partial: the Go scheduler is an oracle over statement boundaries; preemption inside a statement, signals and cgo threads are not modelled; on the pinned code a migration can be attempted (GOMAXPROCS(1), busy goroutine, blocking sleeps at the hook) but not forced. Kernel model as for C09.",
+        ref="DESIGN.md 6 (C11)"),
     "C12": dict(
         text="Kernel-checked theorems over the tables and records REGENERATED from arch/*.go on every run (coq/properties/C12.v): no number or name twice in any of the five tables (reflection), lookups mutually inverse, map inversion independent of iteration order, agreement with vendored UAPI / x/sys / Go syscall oracles, audit ids equal AUDIT_ARCH_*, aliases case-insensitive and paired, unsupported architectures rejected. The runtime package is read back in fresh processes and compared with the regenerated data inside Coq.",
         technique="Rocq proof by reflection (vm_compute over regenerated finite tables, lifted by forallb_forall) + generic table lemmas + translator cross-check against the running package",
